@@ -51,6 +51,14 @@ CHECKS = {
         "Known finding buffered-nack-evicted (nackWriter re-requests packets that were received but evicted from the cache).",
    technique="Lean 4 invariant proofs (bitmap, counters) + differential check incl. end-to-end readLoop over in-process WebRTC",
    ref="DESIGN.md section 5 C06"),
+ "C09": dict(engine="token",
+   text="Lean 4 characterisation theorems (scope of Stateful.match and matchGroup on whole path components for all strings; validity window incl. boundary instants; "
+        "key selection/kty-alg table/signature/expiry for parseJWT with cryptography as a parameter; audience host+group; username rules of GetPermission; global "
+        "administrator) over a model tied to the Go code by a differential run on every check (exhaustive over {a,b,/} names and the key-set × header × signer table)",
+   note=TB + "golang-jwt/crypto/net/url as instantiated in the harness (verify is an abstract parameter of the model); the clock is read by the code itself, the run "
+        "stays 2 s away from window boundaries and the theorems cover the boundaries.",
+   technique="Lean 4 proof (scope/window/key-selection characterisations) + model/implementation differential check",
+   ref="DESIGN.md section 5 C09"),
  "C12": dict(engine="codecs+down (+sig, api when integrated)",
    text="Media part proved in Lean 4: the transcriptions of PacketFlags, RewritePacket, Keyframe (VP8, VP9, AV1 OBU walk, H.264 single/STAP/MTAP/FU), "
         "KeyframeDimensions and of pion's RTP/VP8/VP9 parsers never evaluate an out-of-range index and never change a packet's length, for every byte list and codec "
